@@ -284,10 +284,12 @@ static void case_c10(const drvargs_t *a,long id){
     if(k==0){ rs=RS_ONE; seekmode=0; } if(k==1){ rs=RS_ONE; seekmode=1; }
     int reqpol=(int)rng_below(&r,4); long preload= rng_chance(&r,0.3)?rng_range(&r,1,8192):0;
     if((rs==RS_ONE||reqpol==0) && phys.n>60000 && !a->thorough){ rs=RS_CAP; cap=7; if(reqpol==0)reqpol=1; }
-    flat_t f; char path[120]; snprintf(path,sizeof path,"vorbisfile %s rs=%d cap=%d req=%d preload=%ld",seekmode==1?"seekable":seekmode==0?"streaming":"seek-fails",rs,cap,reqpol,preload);
-    int fr=flat_vf(phys.p,phys.n,seekmode,rs,cap,rng_next(&r),reqpol,preload,&f); res_eval(1);
+    int dirty= k%3==2 || rng_chance(&r,0.2);   /* the source leaves errno == EINTR on successful reads (it retried an interrupted read): success is success */
+    flat_t f; char path[140]; snprintf(path,sizeof path,"vorbisfile %s rs=%d cap=%d req=%d preload=%ld%s",seekmode==1?"seekable":seekmode==0?"streaming":"seek-fails",rs,cap,reqpol,preload,dirty?" errno-left-set-on-success":"");
+    memsrc_errno_dirty_default=dirty; if(dirty) res_count("decodes_with_errno_left_set_on_successful_reads",1);
+    int fr=flat_vf(phys.p,phys.n,seekmode,rs,cap,rng_next(&r),reqpol,preload,&f); res_eval(1); memsrc_errno_dirty_default=0;
     if(fr) res_viol("C10","path-error","%s: %s: %s",path,f.err,desc);
-    else if(!flat_cmp(&f,&ref,path,desc)) res_bucket("vf|mode%d|rs%d|req%d|pre%d|%s",seekmode,rs,reqpol,preload>0,ref.nlinks>1?"chain":"single");
+    else if(!flat_cmp(&f,&ref,path,desc)) res_bucket("vf|mode%d|rs%d|req%d|pre%d|%s%s",seekmode,rs,reqpol,preload>0,ref.nlinks>1?"chain":"single",dirty?"|errno":"");
     flat_free(&f);
   }
   if(!res_nviol()){
@@ -657,7 +659,7 @@ static int untrimmed_continuation(const unsigned char *d,size_t nbytes,const ref
     int r=ogg_sync_pageout(&oy,&og);
     if(r==0){ if(pos>=nbytes) break; size_t k=nbytes-pos>65536?65536:nbytes-pos; char *b=ogg_sync_buffer(&oy,(long)k); memcpy(b,d+pos,k); ogg_sync_wrote(&oy,(long)k); pos+=k; continue; }
     if(r<0) continue;
-    if(ogg_page_serialno(&og)!=(int)L->serial) { if(have_os && nhead>=3) break; continue; }
+    if(ogg_page_serialno(&og)!=(int)L->serial) { if(have_os && nhead>=3 && ogg_page_bos(&og)) break; continue; }   /* pages of a multiplexed foreign stream are skipped; the next BOS page ends the link */
     if(!have_os){ ogg_stream_init(&os,(int)L->serial); have_os=1; }
     ogg_stream_pagein(&os,&og);
     while(ogg_stream_packetout(&os,&op)>0){
@@ -705,7 +707,14 @@ static void case_c19(const drvargs_t *a,long id){
   chain_describe(&cd,desc,sizeof desc);
   if(id%4==3){ if(build_chain_mixed(&r,&cd,pick_modelmask(&r,cd.nlinks),40,8,&phys,NULL,desc,sizeof desc)){ res_sample("refused: %s",desc); res_end(); buf_free(&phys); return; } }
   else
-  if(build_chain(&cd,&phys,NULL)){ res_sample("encoder refused: %s",desc); res_end(); buf_free(&phys); return; }
+  { size_t loff19[VH_MAXLINKS+1]; int rc= (id%6==5)? build_chain(&cd,&phys,loff19) : build_chain(&cd,&phys,NULL);
+    if(rc){ res_sample("encoder refused: %s",desc); res_end(); buf_free(&phys); return; }
+    if(id%6==5){ /* "all seekable streams": links with a foreign logical stream multiplexed in (vorbisfile skips its pages); what would have been read next at the old position may lie behind a foreign page */
+      buf_t q; buf_init(&q); size_t dl=strlen(desc);
+      for(int i=0;i<cd.nlinks;i++){ buf_t one; one.p=phys.p+loff19[i]; one.n=loff19[i+1]-loff19[i]; one.cap=one.n;
+        if(rng_chance(&r,0.8)){ int where=(int)rng_below(&r,4); if(rng_chance(&r,0.3)) where|=4; mux_add_foreign(&one,0x0f00d200+i,rng_next(&r),where,&q); if(dl+40<sizeof desc) dl+=snprintf(desc+dl,sizeof desc-dl," {link %d +foreign stream}",i); }
+        else buf_add(&q,one.p,one.n); }
+      buf_free(&phys); phys=q; res_count("streams_with_multiplexed_foreign_streams",1); } }
   vh_dump("stream.ogg",phys.p,phys.n);
   refdec_t F; if(ref_decode(phys.p,phys.n,0,&F)){ res_viol("C19","linear-broken","%s",F.err); ref_free(&F); res_end(); buf_free(&phys); return; }
   int npairs=a->thorough?120:60;
